@@ -293,6 +293,64 @@ theorem C05_wrapper_ip_sound (il : Bool) (atts : List Attempt) (hne : atts ≠ [
   · intro hall
     exact (gen _ 0 ⟨0, 0, none, 0⟩).2 rfl hne' (fun x hx => hall x (htake x hx))
 
+/-! ### C08 clause: the network-supplied receive time (SCION E2E timestamp option) -/
+
+/-- As repaired, the receive time the SCION client evaluates lies inside the exchange whatever
+    the packet's timestamp option says. -/
+theorem C05_scion_rx_time_within_exchange (d : ScionDgram) (cTx1 cRx : Int) (hle : cTx1 ≤ cRx) :
+    cTx1 ≤ scionRxTime d cTx1 cRx ∧ scionRxTime d cTx1 cRx ≤ cRx :=
+  scionRxTime_within d cTx1 cRx hle
+
+/-- Hence no datagram makes a basic exchange of the SCION client reach
+    `panic("unexpected system clock behavior")` (kernel receive time not before the kernel
+    transmit time; a malformed authenticator option is the separate finding F4). For an
+    interleaved response `t0`, `t3` are the previous exchange's stored stamps, which by the
+    same bound are ordered when they were stored. -/
+theorem C05_scion_basic_no_panic (cfg : Cfg) (sc : ScionCtx) (prev : Prev) (req : Req) (cTx1 cRx : Int)
+    (d : ScionDgram) (hb : req.interleaved = false) (hle : cTx1 ≤ cRx)
+    (hau : ∀ au, d.authOpt = some au → au.wellFormed = true) :
+    classifySCION cfg sc prev req cTx1 cRx d ≠ .panic := by
+  have hn := ntpStage_basic_no_panic cfg prev req cTx1 (scionRxTime d cTx1 cRx) d.payload hb
+    (scionRxTime_within d cTx1 cRx hle).1
+  unfold classifySCION classifySCIONWith
+  split
+  · simp
+  split
+  · simp
+  split
+  · simp
+  split
+  · simp
+  split
+  · simp
+  dsimp only
+  split
+  · cases hopt : d.authOpt with
+    | none => simpa using hn
+    | some au =>
+      have hw := hau au hopt
+      simp only [hw, Bool.not_true, Bool.false_eq_true, if_false]
+      split
+      · split
+        · simp
+        · exact hn
+      · exact hn
+  · exact hn
+
+/-- The code before the fix: a reply that is genuine except for a timestamp option carrying a
+    time one hour before the request makes the client panic (failing input found by the check,
+    sig `C08:client-scion:tsopt-early-time`; here with the request sent at t = 4000 s). -/
+theorem C05_scion_tsopt_old_counterexample :
+    let req : Req := ⟨false, zero64, zero64, ofTime 4000000000000, 4000000000000⟩
+    let pkt : NtpPkt := ⟨36, 1, req.tx, ofTime 4000000100000, ofTime 4000000200000⟩
+    let d : ScionDgram := ⟨true, [.scion, .e2e, .udp], 160, 56, 1, 2, 3, 4, some 400000000000, none,
+      ⟨48, pkt, true, true, true⟩⟩
+    classifySCIONOld ⟨.scion, true, false, true⟩ ⟨1, 2, 3, 4, false⟩ Prev.init req 4000000050000 4000000900000 d
+      = .panic ∧
+    (classifySCION ⟨.scion, true, false, true⟩ ⟨1, 2, 3, 4, false⟩ Prev.init req 4000000050000 4000000900000 d).isAccept
+      = true := by
+  decide
+
 /-! ### F13: entry of the per-exchange functions -/
 
 /-- As repaired, a local address that is no valid IP slice yields an error — never a result. -/
